@@ -26,6 +26,18 @@ type Faults struct {
 	WrongNumPct int `json:"wrong_num_pct"` // a valid block of another height is served
 	StalePct    int `json:"stale_pct"`     // latest: an older header of the CURRENT chain
 	Budget      int `json:"budget"`        // at most this many faulty answers per (kind, height); then honest
+	// Rules script particular interleavings (directed scenarios): applied before the random faults.
+	Rules []Rule `json:"rules,omitempty"`
+}
+
+// Rule: while the source is in epoch Epoch, a request for Height fails ("fail"), or its answer is
+// computed at once and handed over only when the node has stored UntilStores blocks ("hold";
+// at most 3 s).
+type Rule struct {
+	Height      uint64 `json:"height"`
+	Epoch       int    `json:"epoch"`
+	Action      string `json:"action"`
+	UntilStores int    `json:"until_stores,omitempty"`
 }
 
 // Trigger says when the source moves to the next epoch's chain.
@@ -33,6 +45,8 @@ type Trigger struct {
 	AtReq    uint64 `json:"at_req,omitempty"`    // when this many requests have been answered, or
 	AtHeight *int   `json:"at_height,omitempty"` // when the node's height first reaches this value
 	AtStores int    `json:"at_stores,omitempty"` // or when the node has stored this many blocks in total
+	// or as soon as an answer for this height has been computed (it may still be in flight)
+	AfterServed *uint64 `json:"after_served,omitempty"`
 }
 
 type source struct {
@@ -53,6 +67,9 @@ type source struct {
 	// logical-time quiescence: honest latest answers since the last commit
 	honestLatest atomic.Int64
 	hits         map[string]int
+	servedHeights map[uint64]bool
+	inflight     int // BlockByNumber calls currently being answered
+	maxInflight  int
 }
 
 type handedOut struct {
@@ -90,6 +107,9 @@ func (s *source) advance() {
 			if n >= t.AtStores {
 				fire = true
 			}
+		}
+		if t.AfterServed != nil && s.servedHeights[*t.AfterServed] {
+			fire = true
 		}
 		if !fire {
 			return
@@ -131,6 +151,11 @@ func sleepCtx(ctx context.Context, d time.Duration) error {
 
 func (s *source) BlockByNumber(ctx context.Context, n uint64) (junosync.CommittedBlock, error) {
 	s.mu.Lock()
+	s.inflight++
+	if s.inflight > s.maxInflight {
+		s.maxInflight = s.inflight
+	}
+	defer func() { s.mu.Lock(); s.inflight--; s.mu.Unlock() }()
 	s.reqs++
 	s.advance()
 	key := "b"
@@ -154,6 +179,22 @@ func (s *source) BlockByNumber(ctx context.Context, n uint64) (junosync.Committe
 		return junosync.CommittedBlock{}, errNotFound
 	}
 	fault := ""
+	holdUntil := 0
+	for _, ru := range s.faults.Rules {
+		if ru.Height == n && ru.Epoch == epoch {
+			switch ru.Action {
+			case "fail":
+				s.hit("rule:fail")
+				s.mu.Unlock()
+				s.rec.add(entry{Kind: eServeErr, Req: n, Epoch: epoch, Fault: "rule-fail"})
+				_ = sleepCtx(ctx, s.notFound)
+				return junosync.CommittedBlock{}, errInjected
+			case "hold":
+				holdUntil = ru.UntilStores
+				s.hit("rule:hold")
+			}
+		}
+	}
 	if budgetLeft {
 		switch {
 		case r.Chance(s.faults.ErrPct, 100):
@@ -194,6 +235,8 @@ func (s *source) BlockByNumber(ctx context.Context, n uint64) (junosync.Committe
 	}
 	ch := make(chan error, 1)
 	s.handed = append(s.handed, handedOut{ch, b.Block.Number, valid})
+	s.servedHeights[n] = true
+	s.advance()
 	s.mu.Unlock()
 	// the answer exists from now on (it was true of the source at this moment), even if it
 	// reaches the synchroniser later
@@ -201,6 +244,21 @@ func (s *source) BlockByNumber(ctx context.Context, n uint64) (junosync.Committe
 		Valid: valid, Fault: fault, Epoch: epoch})
 	if err := sleepCtx(ctx, delay); err != nil {
 		return junosync.CommittedBlock{}, err
+	}
+	if holdUntil > 0 {
+		deadline := time.Now().Add(3 * time.Second)
+		for time.Now().Before(deadline) && ctx.Err() == nil {
+			s.rec.mu.Lock()
+			n := s.rec.stores
+			s.rec.mu.Unlock()
+			if n >= holdUntil {
+				break
+			}
+			time.Sleep(100 * time.Microsecond)
+		}
+		if ctx.Err() != nil {
+			return junosync.CommittedBlock{}, ctx.Err()
+		}
 	}
 	return junosync.CommittedBlock{Block: b.Block, StateUpdate: b.SU, NewClasses: b.Classes, Persisted: ch}, nil
 }
